@@ -1791,6 +1791,14 @@ pub fn build(full_name: &str, level: u8) -> Option<Scenario> {
     }
     // "-api": every public RawNode entry point is offered to a clone in every state (C20)
     s.api_probe = name.contains("-api");
+    if name.contains("-adv") {
+        // the application calls advance(rd) and, after the light ready, advance_apply()
+        for nd in s.nodes.iter_mut() {
+            if nd.mode == AppMode::Sync && !nd.apply_lag {
+                nd.simple_advance = true;
+            }
+        }
+    }
     if name.contains("-split") {
         // fsync only when must_sync says so; the state machine has a store of its own: after a
         // crash the applied index (and applied configuration) may be ahead of the durable commit
